@@ -463,6 +463,11 @@ theorem Index.namesClassOnly_n (a0 : _) : Keeps R (Index.namesClassOnly a0) := b
   keeps
 macro_rules | `(tactic| keeps_prim) => `(tactic| (apply Index.namesClassOnly_n <;> assumption))
 
+theorem Index.multiclassParent_n (a0 a1 : _) : Keeps R (Index.multiclassParent r a0 a1) := by
+  unfold Index.multiclassParent
+  keeps
+macro_rules | `(tactic| keeps_prim) => `(tactic| (apply Index.multiclassParent_n <;> assumption))
+
 theorem Index.defmMulticlassParent_n (a0 a1 : _) : Keeps R (Index.defmMulticlassParent r a0 a1) := by
   unfold Index.defmMulticlassParent
   keeps
